@@ -279,7 +279,7 @@ CaseResult run_dynamic(const RunCtx &ctx, TapeReader &t, unsigned size_hint) {
         for (size_t i = 0; i < ops.size() && i < 60; ++i) {
             d << " " << dyn_op_name(ops[i].kind) << "(" << key_str(uni[ops[i].a % U]);
             if (ops[i].kind == DynOp::INS_RUN || ops[i].kind == DynOp::ERASE_RUN) d << ",n=" << ops[i].b << ",stride=" << ops[i].c;
-            if (ops[i].kind == DynOp::RANGE) d << ".." << key_str(uni[ops[i].b % U]);
+            if (ops[i].kind == DynOp::RANGE) d << ".." << ((ops[i].a * 31 + ops[i].b) % 12 == 0 ? std::string("<numeric max: open-ended>") : key_str(uni[ops[i].b % U]));
             if (ops[i].da) d << (ops[i].da > 0 ? "+1" : "-1");
             d << ")";
         }
@@ -569,6 +569,8 @@ CaseResult run_dynamic(const RunCtx &ctx, TapeReader &t, unsigned size_hint) {
                 K lo, hi;
                 if (!qkey(op.a, op.da, lo) || !qkey(op.b, op.db, hi)) break;
                 if (lo > hi) std::swap(lo, hi);
+                // 1 range in 12 is open-ended: hi is the largest value of the key type ("everything from lo on")
+                if ((op.a * 31 + op.b) % 12 == 0) hi = std::numeric_limits<K>::max();
                 std::vector<std::pair<K, V>> got;
                 try {
                     got = dyn->range(lo, hi);
